@@ -207,6 +207,10 @@ func c17Property(t *rapid.T) {
 		{"RoleManager", constant.RoleContractAddr, "RegisterRole", []*pb.Arg{pb.String(sim.KeyFor("c17-wf-candidate").Addr.String()), pb.String("governanceAdmin"), pb.String(""), pb.String("r")}, "governance-admin"},
 		{"Governance", constant.GovernanceContractAddr, "WithdrawProposal", []*pb.Arg{pb.String(tpl.Data["openProposal"]), pb.String("r")}, ""},
 		{"Governance", constant.GovernanceContractAddr, "Vote", []*pb.Arg{pb.String(tpl.Data["openProposal"]), pb.String("approve"), pb.String("r")}, "governance-admin"},
+		// the hub's broker forwards IBTPs without proof; naming another party's service as the source is open to nobody
+		{"InterBroker", constant.InterBrokerContractAddr, "EmitInterchain", []*pb.Arg{pb.String(sim.FullID(w.BxhID, "chainA", "s2")), pb.String(sim.FullID(w.BxhID, "chainC", "s1")), pb.String("f,cb,rb"), pb.String("a"), pb.String("b"), pb.String("c")}, ""},
+		{"InterBroker", constant.InterBrokerContractAddr, "EmitInterchain", []*pb.Arg{pb.String(sim.FullID(w.BxhID, "chainC", "s1")), pb.String(sim.FullID(w.BxhID, "chainA", "s2")), pb.String("f,cb,rb"), pb.String("a"), pb.String("b"), pb.String("c")}, ""},
+		{"InterBroker", constant.InterBrokerContractAddr, "EmitInterchain", []*pb.Arg{pb.String(sim.FullID(w.BxhID, "chainB", "s1")), pb.String(sim.FullID(w.BxhID, "chainA", "s2")), pb.String("f,cb,rb"), pb.String("a"), pb.String("b"), pb.String("c")}, ""},
 		{"GovStrategy", constant.ProposalStrategyMgrContractAddr, "UpdateProposalStrategy", []*pb.Arg{pb.String("appchain_mgr"), pb.String("SimpleMajority"), pb.String("a >= 1"), pb.String("r")}, "governance-admin"},
 	}
 	for wi, c := range wf {
